@@ -522,10 +522,23 @@ class DocumentationAggregator(CMakeListener):
         :param docstring: Cleaned docstring.
         """
 
-        args = ctx.single_argument() + ctx.compound_argument()
-        args = [val.getText() for val in args]
+        # Keep the arguments in source order, parenthesised groups included
+        args = [DocumentationAggregator._argument_text(val) for val in ctx.getChildren()
+                if isinstance(val, (CMakeParser.Single_argumentContext, CMakeParser.Compound_argumentContext))]
         self.documented.append(GenericCommandDocumentation(
             command_name, docstring, args))
+
+    @staticmethod
+    def _argument_text(arg: ParserRuleContext) -> str:
+        """
+        Text of an argument as written; the arguments inside a parenthesised
+        group are separated by single spaces.
+        """
+        if isinstance(arg, CMakeParser.Compound_argumentContext):
+            inner = [DocumentationAggregator._argument_text(val) for val in arg.getChildren()
+                     if isinstance(val, (CMakeParser.Single_argumentContext, CMakeParser.Compound_argumentContext))]
+            return "(" + " ".join(inner) + ")"
+        return arg.getText()
 
     @staticmethod
     def clean_doc_lines(lines: List[str]) -> str:
